@@ -67,6 +67,14 @@ def family(rng, alpha, n, L, shape, psub, pindel):
         k = rng.randint(2, max(2, min(8, n // 2)))
         centers = [mutate(rng, anc, alpha, min(0.9, psub * 4), pindel * 2) for _ in range(k)]
         return [mutate(rng, centers[rng.randrange(k)], alpha, psub * 0.5, pindel * 0.5) for _ in range(n)]
+    if shape == 'twoclusters':
+        # two tight clusters of equal-length sequences (substitutions only): symmetric k-means splits with
+        # exactly equal scores and equal-length profiles, i.e. ties everywhere a tie can be
+        ca = mutate(rng, anc, alpha, 0.3, 0.0); cb = mutate(rng, anc, alpha, 0.3, 0.0)
+        na = rng.randint(max(1, n // 4), max(1, 3 * n // 4))
+        out = [mutate(rng, ca, alpha, psub * 0.2, 0.0) for _ in range(na)] + [mutate(rng, cb, alpha, psub * 0.2, 0.0) for _ in range(n - na)]
+        rng.shuffle(out)
+        return out
     if shape == 'balanced':
         pool = [anc]
         while len(pool) < n:
@@ -131,12 +139,16 @@ def gen_workload(rng, profile=None, kinds=('dna', 'rna', 'protein'), weights=Non
         n, L = rng.randint(10, 60), rng.randint(20, 260)
     elif profile == 'kmeans':
         n, L = rng.randint(100, 240), rng.randint(12, 70)
-        shape = rng.choice(['clusters', 'balanced', 'caterpillar', 'star'])
+        shape = rng.choice(['clusters', 'balanced', 'caterpillar', 'star', 'twoclusters', 'twoclusters'])
     elif profile == 'hirsch':
         n, L = rng.randint(2, 5), rng.randint(500, 1500)
         psub = rng.choice([0.02, 0.1, 0.25]); pindel = rng.choice([0.0, 0.01, 0.03])
     elif profile == 'ratio':
         n, L = rng.randint(3, 10), rng.randint(150, 900)
+    elif profile == 'many':
+        # several hundred short sequences: groups of more than 256 members, deep k-means recursion, > 512 leaves
+        n, L = rng.randint(258, 720), rng.randint(6, 22)
+        shape = rng.choice(['clusters', 'balanced', 'caterpillar', 'star'])
     elif profile == 'multilong':
         # many merges of long sequences: several tree-parallel merges above the 256/384-entry buffer sizes at once
         n, L = rng.randint(6, 28), rng.randint(390, 620)
